@@ -12,7 +12,7 @@ CONSTANTS Shapes, MaxLen, Ext, NRand, RandDepth
 VARIABLES shape, done
 
 V(sch, p, inc) == LET r == Rec(sch, p, inc) IN
-  [ok |-> r.ok, at |-> r.at, ph |-> IF r.ok THEN "" ELSE PhaseBefore(sch, p, r.at)]
+  [ok |-> r.ok, at |-> r.at, ph |-> IF r.ok THEN "end:" \o Run(sch, p).ph ELSE PhaseBefore(sch, p, r.at)]
 Vec(sch, p) == [p |-> p, s |-> V(sch, p, FALSE), i |-> V(sch, p, TRUE)]
 Sfx(n) == ToString(n) \o ".ndjson"
 
